@@ -241,7 +241,11 @@ class RRELNavigation(RRELBase):
                 continue
             target = getattr(start_obj, self.name)
             if not self.consume_name and self.fixed_name is None:
-                if target:
+                # (an empty list or None leads nowhere; a model object may
+                # be falsy)
+                if target is not None and not (
+                    isinstance(target, list) and not target
+                ):
                     yield target, lookup_list, matched_path  # a list
                 continue
             if not isinstance(target, list):
